@@ -2,12 +2,14 @@ module harness
 
 go 1.18
 
-require github.com/hashicorp/go-argmapper v0.0.0
+require (
+	github.com/hashicorp/go-argmapper v0.0.0
+	github.com/hashicorp/go-hclog v0.14.0
+)
 
 require (
 	github.com/fatih/color v1.7.0 // indirect
 	github.com/hashicorp/errwrap v1.0.0 // indirect
-	github.com/hashicorp/go-hclog v0.14.0 // indirect
 	github.com/hashicorp/go-multierror v1.1.0 // indirect
 	github.com/mattn/go-colorable v0.1.4 // indirect
 	github.com/mattn/go-isatty v0.0.10 // indirect
